@@ -4,3 +4,16 @@ from .kernels import run_c04
 
 def run(ctx):
     run_c04(ctx)
+    # the ω(g∖e) the recursion divides by and the flags behind them are the statement's (restated from C03-b / C03-e / C03-f: a spanning
+    # test that forgets vacuum graphs or a loop number that misses a self-loop changes J(full) and the normalisation while the recursion
+    # itself is untouched)
+    from .kernels import gdod_clause, run_c03_flags, run_c03_loops, builder_roles, restated_clause
+    from ..roles import RoleLost
+    ctx.rule("C04-d", "ω(g) = [g≠∅]·(Σ_{e∈g} w_e − ℓ(g)·D/2 − [spanning(g)]·dod) + [g=∅]·1 as stored, entry by entry")
+    try:
+        bs, fg, tb, jrec = builder_roles(ctx)
+        restated_clause(ctx, "C04-d", tb.path, "generalized-dod", lambda: gdod_clause(ctx, "C04-d", tb))
+    except RoleLost as e:
+        ctx.note("C04-d: restated clause skipped — %s; the owning rules report it" % e)
+    run_c03_flags(ctx, "C04-e")
+    run_c03_loops(ctx, "C04-e", soft=True)
